@@ -9,7 +9,7 @@ P = {
  "C01": ("storage-table agreement of CREATE TABLE/_INSERT/_SELECT/_UPDATE; both importers' create() evaluated against a model database: every line becomes exactly one row, in file order, holding its nine fields, attributes/extra as JSON and the bin of its coordinates; db[id] returns a Feature with the line's fields; replace and FeatureDB._update store the new content under the id; the file's dialect survives create -> reopen and reaches every Feature handed out; JSON layer evaluated (key order, raw lists of an Attributes mapping under both always_return_list settings, re-wrap on decode, no aliasing between two decodings); printer/parser template round trip; column handling of feature_from_line (strict and blank-separated) and __unicode__",
          "byte-identity of printed lines for arbitrary values, iteration order without ORDER BY (SQLite scan order), re-import equivalence beyond the scenarios",
          "abstract evaluation of the importer / query code against a model database (own relational evaluator for the SQL subset used, in-memory file system, temp-file service; gffutils and sqlite3 never imported or run) on scenario files compared with the statement's reference model + static string analysis (template round trip) + parsed SQL table agreement", "3 C01; 9.8"),
- "C02": ("the GFF3 importer evaluated against a model database on a 9-line annotation graph (depth 4, shared child, repeated and dangling Parent values, a line without ID) in several line orders (all 720 orders of six lines in the thorough tier) and for a second import into the filled database: the relations table equals the Parent graph two levels deep, once each, no phantom feature; create() and FeatureDB.update() evaluated end to end (closure after population, children-first files); children/parents = exact join with DISTINCT and correct binding in every partition of the query builder",
+ "C02": ("the GFF3 importer evaluated against a model database on a 10-line annotation graph (depth 4, shared child, a child naming both its transcript and the gene, repeated and dangling Parent values, a line without ID) in several line orders (all 720 orders of six lines in the thorough tier) and for a second import into the filled database: the relations table equals the Parent graph two levels deep, once each, no phantom feature; create() and FeatureDB.update() evaluated end to end (closure after population, children-first files); children/parents = exact join with DISTINCT and correct binding in every partition of the query builder",
          "'never its own relative' for cyclic input and 'for every graph' (scenario family only)",
          "abstract evaluation of the importer / query code against a model database (own relational evaluator for the SQL subset used, in-memory file system, temp-file service; gffutils and sqlite3 never imported or run) compared with a reference model of the Parent graph + conjunctive-query normal-form comparison of the generated children()/parents() statements", "3 C02; 9.8"),
  "C03": ("the GTF importer's create() evaluated against a model database (pair query with sub-select, MIN/MAX extent queries, intermediate file written and read back, derived features merged): two genes on two chromosomes with interleaved lines, an exon ending beyond the last-starting one, a transcript without exons, all four disable_infer_* combinations, shuffled orders, explicit gene/transcript lines (kept with their own coordinates and attributes), custom keys and subfeature, an id shared by a gene and an exon-less transcript: relations, derived features (type, seqid, extent, strand, bin, id attribute) and self-relations compared with a reference model; format routing as a decision table by abstract evaluation of create_db/update over force x fmt x id_spec",
